@@ -78,6 +78,7 @@ type Explorer struct {
 	BoundDone   bool // the declared depth bound was completed without hitting the state cap
 	Blocked     int64
 	Hists       [][]world.Op
+	SampleHists [][]world.Op // a few of the deepest shortest-histories found
 	Findings    map[string]*FindingRec
 	HarnessErr  error
 
@@ -235,6 +236,9 @@ func (e *Explorer) Run() {
 		if v := herr.Load(); v != nil {
 			e.HarnessErr = v.(error)
 			return
+		}
+		if len(newStates) > 0 {
+			e.SampleHists = [][]world.Op{newStates[0], newStates[len(newStates)/2], newStates[len(newStates)-1]}
 		}
 		frontier = frontier[:0]
 		for i, h := range newStates {
